@@ -26,9 +26,9 @@ INVARIANT Emit
 # which harness tallies / TLC verdicts are violations of which property
 OWN = {
     'C02': {'tally': ['offset_mismatch'], 'verdict': ['c02']},
-    'C03': {'tally': ['state_mismatch'], 'verdict': ['c03']},
+    'C03': {'tally': ['state_mismatch', 'report_inconsistent'], 'verdict': ['c03']},
     'C04': {'tally': ['rollback_panic', 'rollback_mismatch'], 'verdict': []},
-    'C20': {'tally': ['fuzz_nonmonotone'], 'verdict': []},
+    'C20': {'tally': ['fuzz_nonmonotone', 'report_inconsistent'], 'verdict': []},
 }
 
 
